@@ -5,8 +5,13 @@ numeric argument (capital, amounts, quantities) is symbolic.  All reads go throu
 from harness.common import EPS_MONEY, bt, dates, fee_fn, frame
 
 PRICES = {'a': [100.0, 105.0, 95.0, 101.5], 'b': [37.5, 33.0, 41.25, 40.0], 'c': [10.0, 11.0, 12.5, 9.75]}
+# variant with a price that is exactly zero on two consecutive dates and then recovers (held positions must stay on the books)
+PRICES_Z = {'a': [100.0, 105.0, 95.0, 101.5], 'b': [37.5, 0.0, 0.0, 40.0], 'c': [10.0, 0.0, 0.0, 9.75]}
 MULT = {'a': 1.0, 'b': 10.0, 'c': 0.5}
 SPREAD = {'a': 0.5, 'b': 0.25, 'c': 0.125}
+COUPON = [0.5, 0.25, 0.0, 0.75]
+COST_LONG = [0.125, 0.0625, 0.125, 0.0]
+COST_SHORT = [0.0625, 0.25, 0.0, 0.125]
 
 
 class World:
@@ -37,9 +42,18 @@ def build(run, cfg):
     elif shape == 'S4':
         tickers = ['a']
         root = C.StrategyBase('root', [C.StrategyBase('sub1', [sec('a')]), C.StrategyBase('sub2', [sec('a')])])
+    elif shape == 'SC':                        # a coupon-paying security and a plain one under a market-value root
+        tickers = ['a', 'b']
+        root = C.StrategyBase('root', [C.CouponPayingSecurity('a', multiplier=mult['a']), sec('b')])
+    elif shape == 'S5':                        # three levels: root -> mid -> leaf -> a ; root also holds c
+        tickers = ['a', 'c']
+        leaf = C.StrategyBase('leaf', [sec('a')])
+        mid = C.StrategyBase('mid', [leaf])
+        root = C.StrategyBase('root', [mid, sec('c')])
     else:
         raise ValueError(shape)
-    data = frame(run, dts, tickers, lambda i, c: PRICES[c][i])
+    PG = PRICES_Z if cfg.get('pgrid') == 'zero' else PRICES
+    data = frame(run, dts, tickers, lambda i, c: PG[c][i])
     root.use_integer_positions(bool(cfg['int']))
     w = World()
     w.fee_kind = cfg['fee'][0]
@@ -70,6 +84,10 @@ def build(run, cfg):
     kw = {}
     if cfg.get('spread'):
         kw['bidoffer'] = frame(run, dts, tickers, lambda i, c: SPREAD[c])
+    if shape == 'SC':
+        kw['coupons'] = frame(run, dts, ['a'], lambda i, c: COUPON[i])
+        kw['cost_long'] = frame(run, dts, ['a'], lambda i, c: COST_LONG[i])
+        kw['cost_short'] = frame(run, dts, ['a'], lambda i, c: COST_SHORT[i])
     root.setup(data, **kw)
     root.update(dts[0])
     w.root, w.dts, w.di, w.data, w.cfg, w.mult, w.tickers = root, dts, 0, data, cfg, mult, tickers
@@ -141,6 +159,7 @@ def apply_op(run, w, k, op):
             sync(w)                    # the clock is only advanced from a synced tree (as Backtest.run does)
             w.di += 1
             root.update(w.dts[w.di])
+            info['moved'] = True
     elif kind == 'read':
         for n in root.members:
             n.value, n.weight, n.price
@@ -151,6 +170,7 @@ def apply_op(run, w, k, op):
 
 def do_ops(run, w, ops, after=None, start=0):
     """Run the configured operations; bt exceptions end the path as 'raised' (judged by C05/C10, not here)."""
+    ops = list(ops) + [['next']] * int(w.cfg.get('tail_next', 0))
     for k, op in enumerate(ops):
         try:
             info = apply_op(run, w, start + k, op)
@@ -162,10 +182,14 @@ def do_ops(run, w, ops, after=None, start=0):
             after(k, op, info)
 
 
-def fund(run, w, prior=True, solvent=True):
+def fund(run, w, prior=True, solvent=True, ghost=None):
     """Initial capital and (optionally) an arbitrary prior portfolio, established through real transact calls."""
     try:
+        if ghost is not None:
+            ghost.before()
         _fund(run, w, prior)
+        if ghost is not None:
+            ghost.after(None, {'flow': w.cap})
     except Exception as e:
         run.note('raised', repr(e)[:120])
         run.end('raised-in-setup')
@@ -194,7 +218,9 @@ def _fund(run, w, prior=True):
                     amt = 50000.0 if s.name != 'sub2' else 80000.0
                 else:
                     amt = run.integer('sub_' + s.name, 0, 10 ** 6) if integer else run.real('sub_' + s.name, 0, 10 ** 6)
-                w.root.allocate(amt, s.name)
+                if s.name == 'leaf':
+                    amt = 20000.0
+                s.parent.allocate(amt, s.name)
         for par in strategies(w.root):
             names = list(par.children.keys()) + list(par._lazy_children.keys())
             for nme in names:
@@ -243,3 +269,80 @@ def check_balance_sheet(run, w, tag=''):
             run.check_near(n.values[now], n.value, EPS_MONEY, 'row-value' + tag, n.full_name)
             run.check_near(n.positions[now], n.position, 1e-9, 'row-position' + tag, n.full_name)
             run.check_near(n.notional_values[now], n.notional_value, EPS_MONEY, 'row-notional' + tag, n.full_name)
+
+
+# ----------------------------------------------------------------------------- ghost bookkeeping (kept by the harness, independent of bt's rows)
+class Ghost:
+    """Per date: external flows / non-flow adjustments injected by the harness, and the trades observed as position deltas."""
+
+    def __init__(self, w):
+        self.w = w
+        self.flows = {}        # date index -> sum of flow adjustments made on the root
+        self.nonflows = {}
+        self.trades = {}       # date index -> list of (security node, q, price, parent node)
+        self.subflow = {}      # (strategy full_name, date index) -> known transfers from the parent (None once unknown)
+        self.snap_pos = None
+
+    def _add(self, d, k, v):
+        d[k] = d.get(k, 0.0) + v
+
+    def before(self):
+        self.snap_pos = {id(s): (s, s.position) for s in securities(self.w.root)}
+
+    def after(self, op, info):
+        w = self.w
+        di = w.di
+        if 'flow' in info:
+            self._add(self.flows, di, info['flow'])
+        if 'nonflow' in info:
+            self._add(self.nonflows, di, info['nonflow'])
+        known = None
+        if op is not None and op[0] == 'transact':
+            # the harness knows this quantity exactly (a position delta would lose a 1e-16-sized trade in float64)
+            par = node(w, op[2]) if len(op) > 2 else w.root
+            known = par[op[1]]
+            q = info['q']
+            if abs(q) >= 1e-16:
+                self.trades.setdefault(di, []).append((known, q, known.price, known.parent))
+        for s in securities(w.root):
+            if s is known:
+                continue
+            old = self.snap_pos.get(id(s), (s, 0.0))[1]
+            q = s.position - old
+            if bool(abs(q) >= 1e-16) if not isinstance(q, float) else abs(q) >= 1e-16:
+                self.trades.setdefault(di, []).append((s, q, s.price, s.parent))
+
+    def trade_cost(self, s, q, price):
+        """(outlay, fee, bidoffer) the harness expects for a trade of q at the market price"""
+        w = self.w
+        m = s.multiplier
+        half = (SPREAD[s.name] * 0.5 * m) if w.spread_on else 0.0
+        bo = abs(q) * half
+        outlay = q * price * m + bo
+        fee = w.fee(q, price * m)
+        return outlay, fee, bo
+
+
+def do_ops_ghost(run, w, ops, ghost, after=None, start=0):
+    ops = list(ops) + [['next']] * int(w.cfg.get('tail_next', 0))
+    for k, op in enumerate(ops):
+        ghost.before()
+        try:
+            info = apply_op(run, w, start + k, op)
+            w.root.value
+        except Exception as e:
+            run.note('raised', repr(e)[:120])
+            run.end('raised')
+        if w.root.bankrupt:
+            run.end('bankrupt')            # liquidation trades are C16's subject
+        ghost.after(op, info)
+        if after is not None:
+            after(k, op, info)
+
+
+def node_of(root, path):
+    n = root
+    for p in path.split('/'):
+        if p:
+            n = n[p]
+    return n
